@@ -358,7 +358,11 @@ impl<T: Transport, Env: UtpEnvironment> VirtualSocket<T, Env> {
     // https://datatracker.ietf.org/doc/html/rfc9293#section-3.8.6.2.2
     fn rx_window(&self) -> u32 {
         let wnd = self.user_rx.remaining_rx_window() as u32;
-        let rmss = self.segment_sizes.mss() as usize;
+        // min(Fr * RCV.BUFF, Eff.snd.MSS) with Fr = 1/2: a buffer smaller than the segment size (which
+        // grows with MTU probing) must not round the window down to zero for good.
+        let rmss = (self.segment_sizes.mss() as usize)
+            .min(self.socket_opts.vsock_rx_bufsize.get() / 2)
+            .max(1);
         if (wnd as usize) < rmss {
             return 0;
         }
